@@ -75,9 +75,11 @@ def elemTriplets [Mul R] (S : Space R) (npts : Nat) (w : Nat → R) (pos elem : 
 def slot (byPos : Bool) (pos elem : Nat) : Nat := if byPos then pos else elem
 
 /-- `map_space_to_points_impl`: the three arrays have `nlocal * len(support_elements)` cells; the block of
-an element is `[slot*nlocal, (slot+1)*nlocal)`.  A block outside the arrays makes the slice assignment
-raise (`none`).  For a strictly increasing support with all blocks inside, `slot` is a bijection onto the
-blocks and the triplets below are in array order (for `byPos = false` this forces `elem = pos`). -/
+an element is `[slot*nlocal, (slot+1)*nlocal)`.  A block outside the arrays gives no defined result
+(`none`): the slice assignment raises `ValueError: cannot assign slice of shape (0,)`, or — for `nlocal = 1`,
+where broadcasting accepts a length-1 value for the empty slice — nothing is written and the `np.empty`
+cells stay uninitialised.  For a strictly increasing support with all blocks inside, `slot` is a bijection
+onto the blocks and the triplets below are in array order (for `byPos = false` this forces `elem = pos`). -/
 def pointMapImpl [Mul R] (byPos : Bool) (S : Space R) (npts : Nat) (w : Nat → R) : Option (List (Entry R)) :=
   let pe := S.support.zipIdx
   if pe.all (fun p => decide (slot byPos p.2 p.1 < S.support.length)) then
